@@ -15,6 +15,7 @@ func extractAll(p *pkg, f *facts) {
 	limiterFacts(p, f)
 	portmapFacts(p, f)
 	configFacts(p, f)
+	startupFacts(p, f)
 }
 
 func (p *pkg) constNat(f *facts, leanName, goName string) {
@@ -531,4 +532,62 @@ func configFacts(p *pkg, f *facts) {
 		})
 	}
 	f.boolean("cfgPolicyDefaultsRateLimitConfig", polDef, true, "")
+}
+
+func startupFacts(p *pkg, f *facts) {
+	// Export: ServerOptions literal carries UseRecordMarking: true
+	if fn, ok := p.funcs["AbsfsNFS.Export"]; ok {
+		set, found := false, false
+		ast.Inspect(fn.Body, func(n ast.Node) bool {
+			cl, ok := n.(*ast.CompositeLit)
+			if !ok || exprString(p.fset, cl.Type) != "ServerOptions" {
+				return true
+			}
+			found = true
+			for _, e := range cl.Elts {
+				if kv, ok := e.(*ast.KeyValueExpr); ok && exprString(p.fset, kv.Key) == "UseRecordMarking" && exprString(p.fset, kv.Value) == "true" {
+					set = true
+				}
+			}
+			return true
+		})
+		f.boolean("exportSetsRecordMarking", set, found, "no ServerOptions literal in Export")
+	} else {
+		f.boolean("exportSetsRecordMarking", false, false, "func Export not found")
+	}
+	if fn, ok := p.funcs["Server.StartWithPortmapper"]; ok {
+		var setPos, listenPos token.Pos
+		ast.Inspect(fn.Body, func(n ast.Node) bool {
+			switch t := n.(type) {
+			case *ast.AssignStmt:
+				if len(t.Lhs) == 1 && exprString(p.fset, t.Lhs[0]) == "s.options.UseRecordMarking" && exprString(p.fset, t.Rhs[0]) == "true" {
+					setPos = t.Pos()
+				}
+			case *ast.CallExpr:
+				if exprString(p.fset, t.Fun) == "s.Listen" && listenPos == 0 {
+					listenPos = t.Pos()
+				}
+			}
+			return true
+		})
+		f.boolean("portmapperSetsRecordMarking", setPos != 0 && listenPos != 0 && setPos < listenPos, true, "")
+	} else {
+		f.boolean("portmapperSetsRecordMarking", false, false, "func StartWithPortmapper not found")
+	}
+	if fn, ok := p.funcs["Server.acceptLoop"]; ok {
+		okb := false
+		ast.Inspect(fn.Body, func(n ast.Node) bool {
+			is, ok := n.(*ast.IfStmt)
+			if !ok || exprString(p.fset, is.Cond) != "s.options.UseRecordMarking" || is.Else == nil {
+				return true
+			}
+			if strings.Contains(exprString(p.fset, is.Body), "handleConnectionWithRecordMarking") && strings.Contains(exprString(p.fset, is.Else), "s.handleConnection(") {
+				okb = true
+			}
+			return true
+		})
+		f.boolean("acceptLoopBranchesOnRecordMarking", okb, true, "")
+	} else {
+		f.boolean("acceptLoopBranchesOnRecordMarking", false, false, "func acceptLoop not found")
+	}
 }
